@@ -1,0 +1,46 @@
+//go:build verif
+// +build verif
+
+package livesql
+
+import (
+	"reflect"
+	"unsafe"
+
+	"github.com/samsarahq/thunder/logger"
+	"github.com/siddontang/go-mysql/replication"
+)
+
+// VerifHook, when set, is called at the linearization points of the live query machinery
+// (build tag verif only). It may block.
+var VerifHook func(point string, args ...interface{})
+
+func vh(point string, args ...interface{}) {
+	if h := VerifHook; h != nil {
+		h(point, args...)
+	}
+}
+
+// VerifNewBinlog builds a Binlog for ldb around an in-process event stream instead of a MySQL
+// replication connection: events sent on the first channel are what RunPollLoop receives from
+// the streamer, an error sent on the second ends the loop. Close must not be called on it.
+func VerifNewBinlog(ldb *LiveDB, database string) (*Binlog, chan<- *replication.BinlogEvent, chan<- error) {
+	ch := make(chan *replication.BinlogEvent, 10240)
+	ech := make(chan error, 4)
+	streamer := &replication.BinlogStreamer{}
+	set := func(name string, v interface{}) {
+		f := reflect.ValueOf(streamer).Elem().FieldByName(name)
+		reflect.NewAt(f.Type(), unsafe.Pointer(f.UnsafeAddr())).Elem().Set(reflect.ValueOf(v))
+	}
+	set("ch", ch)
+	set("ech", ech)
+	return &Binlog{
+		db:            ldb.DB,
+		database:      database,
+		tracker:       ldb.tracker,
+		streamer:      streamer,
+		tableVersions: make(map[string]uint64),
+		columnMaps:    make(map[string]*columnMap),
+		logger:        logger.New(),
+	}, ch, ech
+}
